@@ -38,8 +38,9 @@ Definition utf16le (s : list N) : res (list N) :=
 (* str.encode('iso-8859-1', 'replace') *)
 Definition latin1_replace (s : list N) : list N :=
   map (fun c => if c <? 256 then c else 63) s.
-(* bytes.lower(): ASCII only *)
-Definition lower_b (c : N) : N := if (65 <=? c) && (c <=? 90) then c + 32 else c.
+(* str.lower() on the iso-8859-1 decoding, re-encoded: A-Z and the Latin-1 capitals 0xC0-0xDE except the
+   multiplication sign 0xD7; the writer (_get_names) and the reader (_split_entries) use the same map *)
+Definition lower_b (c : N) : N := if ((65 <=? c) && (c <=? 90)) || ((192 <=? c) && (c <=? 222) && negb (c =? 215)) then c + 32 else c.
 
 (* ---------------- fat.lfn_valid ---------------- *)
 Definition last_is (s : list N) (c : N) : bool :=
